@@ -692,7 +692,8 @@ where
         };
         rec["statement"] = json!("ok");
         if with_gens {
-            rec["gens"] = gens_json::<P>(&params);
+            // the generators the STATEMENT carries (what prover and verifier use), not the object handed to its constructor
+            rec["gens"] = gens_json::<P>(&st.generators);
         }
         rec["commitments"] = Value::Array(st.commitments.iter().map(P::describe).collect());
         let wspec = if m["witness"].is_null() { &m["commit"] } else { &m["witness"] };
@@ -857,7 +858,7 @@ where
                 match built {
                     Ok((params, st)) => {
                         if with_gens && v["with_gens"].as_bool().unwrap_or(false) {
-                            vgens.push(gens_json::<P>(&params));
+                            vgens.push(gens_json::<P>(&st.generators));
                         }
                         vcommit.push(Value::Array(st.commitments.iter().map(P::describe).collect()));
                         vstm.push(json!({
